@@ -65,6 +65,33 @@ def stepV (oddGuard sameGuard : Bool) (o : Ords) (l : Label) (s : St) : Option S
     else none
   | _ => step o l s
 
+/-- variant of `step` used only by the failing-history search: the reader with the two tests of `try_read` as they are
+in the source (translated by the extractor) — `early seq`: give up after the first load; `accept seq newSeq`: return the
+value read -/
+def stepT (early : Nat → Bool) (accept : Nat → Nat → Bool) (o : Ords) (l : Label) (s : St) : Option St :=
+  match l with
+  | .rLoadSeq1 i =>
+    if s.rpc = .start ∧ s.rcur.seq ≤ i then
+      match s.seqM[i]? with
+      | some m =>
+        let cur := { s.rcur with seq := i }
+        let s' := { s with rv := m.val, racq := s.racq.join m.view,
+                           rcur := if o.rFirst.isAcq then cur.join m.view else cur }
+        if early m.val then some { s' with rpc := .done, result := some none }
+        else some { s' with rpc := .seqLoaded }
+      | none => none
+    else none
+  | .rLoadSeq2 i =>
+    if s.rpc = .fenced ∧ s.rcur.seq ≤ i then
+      match s.seqM[i]? with
+      | some m =>
+        let s' := { s with racq := s.racq.join m.view, rcur := { s.rcur with seq := i }, rpc := .done }
+        if accept s.rv m.val then some { s' with result := some (some (s.ra, s.rb)), lastOk := s.ja }
+        else some { s' with result := some none }
+      | none => none
+    else none
+  | _ => step o l s
+
 def runLabels (o : Ords) (ls : List Label) (s : St) : Option St :=
   ls.foldl (fun acc l => acc.bind (step o l)) (some s)
 
@@ -102,6 +129,17 @@ def searchTorn (g : Bool × Bool) (o : Ords) (maxWrites : Nat) : Nat → St → 
     (enabled s maxWrites).firstM fun l =>
       match stepV g.1 g.2 o l s with
       | some s' => searchTorn g o maxWrites fuel s' (l :: trace)
+      | none => none
+
+/-- the same search with the tests of the source -/
+def searchTornT (early : Nat → Bool) (accept : Nat → Nat → Bool) (o : Ords) (maxWrites : Nat) :
+    Nat → St → List Label → Option (List Label)
+  | 0, _, _ => none
+  | fuel + 1, s, trace =>
+    if isTorn s then some trace.reverse else
+    (enabled s maxWrites).firstM fun l =>
+      match stepT early accept o l s with
+      | some s' => searchTornT early accept o maxWrites fuel s' (l :: trace)
       | none => none
 
 end NexoVerif.SeqLock
